@@ -28,7 +28,7 @@ import (
 type cpCase struct {
 	InFlight int    `json:"in_flight"` // tasks running `sleep` when Cancel is injected
 	Waiting  int    `json:"waiting"`   // stages that depend on them (pipeline mode)
-	At       string `json:"at"`        // before (during the before hook), cmd (during a command), between (a fast command between two long ones), after (all tasks finished), start (before anything runs)
+	At       string `json:"at"`        // before (during the before hook), cmd (during a command), between (a fast command between two long ones), after (all tasks finished), afterhook (during the task's after hook), start (before anything runs)
 	Via      string `json:"via"`       // runner | scheduler
 	Twice    bool   `json:"twice"`
 	Timeout  bool   `json:"timeout,omitempty"` // the tasks carry a (long) timeout of their own
@@ -130,6 +130,9 @@ func cancelChild() {
 		case "before":
 			t.Before = []string{fmt.Sprintf("echo %s.b.TRIGGER; %s", t.Name, sleep)}
 			t.Commands = []string{fmt.Sprintf("echo %s.c1", t.Name)}
+		case "afterhook": // Cancel arrives while the task's after hook is running
+			t.Commands = []string{fmt.Sprintf("echo %s.c1", t.Name)}
+			t.After = []string{fmt.Sprintf("echo %s.a.TRIGGER; %s", t.Name, sleep)}
 		case "between":
 			t.Commands = []string{fmt.Sprintf("echo %s.c1", t.Name), fmt.Sprintf("echo %s.fast.TRIGGER", t.Name), fmt.Sprintf("echo %s.c3; %s", t.Name, sleep)}
 		default: // cmd, after, start
@@ -259,7 +262,7 @@ func runCancelProc(c cpCase) string {
 		return "KIND:cancel-not-injected:harness did not reach the injection point: " + fmt.Sprint(rep.Markers)
 	}
 	for name, res := range rep.Runs {
-		interrupted := c.At != "after" || name == "late" || strings.HasPrefix(name, "w")
+		interrupted := (c.At != "after" && c.At != "afterhook") || name == "late" || strings.HasPrefix(name, "w") // a task whose commands all finished is not "interrupted" by a cancel during its after hook
 		if !interrupted {
 			continue
 		}
@@ -320,7 +323,7 @@ func cancelProcUnit(res *common.Result) {
 		maxIn = 4
 	}
 	for n := 0; n <= maxIn; n++ {
-		for _, at := range []string{"start", "before", "cmd", "between", "after"} {
+		for _, at := range []string{"start", "before", "cmd", "between", "after", "afterhook"} {
 			if n == 0 && at != "start" {
 				continue
 			}
